@@ -40,6 +40,70 @@ WRITE_OPEN_SITES = {
 }
 
 
+def _scratch_sites(ck, fi):
+    """(fa, scheme paths, [(creating call, path expression)]) for the files `fi` creates under names outside the key scheme."""
+    from .c05 import SchemePaths, _created_paths
+    from .cache_model import safe_expand
+    fa = FA(ck, fi)
+    sp = SchemePaths(ck)
+    out = []
+    for (c, p_, _what) in _created_paths(fa):
+        if p_ is None or A.call_attr(c) in ("replace", "rename"):
+            continue
+        if not sp.is_scheme(safe_expand(fa, p_, c)):
+            out.append((c, p_))
+    return fa, sp, out
+
+
+def _same_path(fa, a, at_a, b, at_b) -> bool:
+    from .c05 import _strip_path_wrappers
+    from .cache_model import safe_expand
+    return A.norm(_strip_path_wrappers(safe_expand(fa, a, at_a))) == A.norm(_strip_path_wrappers(safe_expand(fa, b, at_b)))
+
+
+def _removes_own_scratch(ck, fi, call) -> bool:
+    fa, sp, scratch = _scratch_sites(ck, fi)
+    tgt = call.args[0] if call.args and not (isinstance(call.func, ast.Attribute) and A.call_attr(call) in ("unlink", "rmdir") and not (A.call_dotted(call) or "").startswith("os.")) \
+        else (call.func.value if isinstance(call.func, ast.Attribute) else None)
+    if tgt is None:
+        return False
+    return any(_same_path(fa, tgt, call, p_, c) for (c, p_) in scratch)
+
+
+def _staged_onto_absent_object(ck, fi, wopen) -> bool:
+    """The file opened for writing at `wopen` is a scratch file (a name outside the key scheme) and every move of it goes onto the
+    version-object path of a key that the path conditions establish to be absent (`exists_versioned(k)` / `<path>.exists()` false)."""
+    from .c05 import _MOVE_FUNCS
+    from .cache_model import safe_expand
+    fa, sp, scratch = _scratch_sites(ck, fi)
+    mine = [(c, p_) for (c, p_) in scratch if c is wopen]
+    if not mine:
+        return False
+    (c, p_) = mine[0]
+    moves = []
+    for k in fa.calls():
+        d = A.call_dotted(k) or ""
+        if d in _MOVE_FUNCS and len(k.args) >= 2 and _same_path(fa, k.args[0], k, p_, c):
+            moves.append((k, k.args[1]))
+        elif A.call_attr(k) in ("rename", "replace") and isinstance(k.func, ast.Attribute) and len(k.args) == 1 and not d.startswith(("os.", "shutil.")) \
+                and _same_path(fa, k.func.value, k, p_, c):
+            moves.append((k, k.args[0]))
+    if not moves:
+        return False
+    for (k, dst) in moves:
+        if not sp.is_scheme(safe_expand(fa, dst, k), which="_get_path_versioned"):
+            return False
+        conds = fa.conditions(fa.stmt_of(k))
+        if not conds:
+            return False
+        # in every way of reaching the move, some test said the destination object is not there
+        def absent(conj):
+            return any((not pol) and ("exists_versioned(" in txt or ".exists()" in txt or "os.path.exists(" in txt) for (txt, pol) in conj)
+        if not all(absent(conj) for conj in conds):
+            return False
+    return True
+
+
 def check(ck):
     from .memo import check_new_memo_tables
     ck.run(check_new_memo_tables, ck, "C07.M1", ('storage_base', 'storage_filesystem'))
@@ -256,34 +320,61 @@ def check_override_namespace(ck, R):
     stem = prefix.rstrip("/")
     ov = FA(ck, "storage_base.Codec.Strategy.output_key_for_override_key")
     kp = ov.fi.params[-1] if ov.fi.params else "override_key"
-    hits = [0]
 
-    def under_prefix(e):
-        """assumption: the override key is a (non-empty) key that lies under the content prefix"""
-        if isinstance(e, ast.Name) and e.id == kp:
-            return True
-        if isinstance(e, (ast.Compare, ast.Call)) and (prefix in A.strings_in(e) or stem in A.strings_in(e)) \
-                and kp in A.names_in(e) and not (isinstance(e, ast.Compare) and type(e.ops[0]) in (ast.NotEq, ast.NotIn, ast.IsNot)):
-            hits[0] += 1
-            return True
-        return None
-    asm = Assume(ov, under_prefix)
-    # an `assert` the assumption falsifies raises
-    failing = [n.id for n in ov.cfg.nodes if n.kind == "stmt" and isinstance(n.ast, ast.Assert) and asm.truth(n.ast.test, n.id) is False]
-    live = asm.reach(removed=failing)
-    ok = False
-    if ov.cfg.exit not in live:
-        ok = True        # refused on every path
-    else:
-        # or escaped: every key returned for such an override is rewritten (quoted / prefix replaced)
-        rets = [ov.cfg.node(i) for i in live if ov.cfg.node(i).kind == "stmt" and isinstance(ov.cfg.node(i).ast, ast.Return)]
-        ok = bool(rets) and all(r.ast.value is not None and any(A.call_attr(c) in ("replace", "quote") for c in A.calls_in(ov.expand(r.ast.value, r.id)))
-                                for r in rets)
-    ok = ok and hits[0] > 0
+    def refused_or_escaped(strings_any, negative_ok=False):
+        """Under the assumption that every comparison / call on the override key that mentions one of `strings_any` holds:
+        is the key refused on every path, or rewritten before it is returned?  (False when no such test exists.)"""
+        hits = [0]
+
+        def atom(e):
+            if isinstance(e, ast.Name) and e.id == kp:
+                return True
+            if isinstance(e, (ast.Compare, ast.Call)) and (set(strings_any) & set(A.strings_in(e))) \
+                    and kp in A.names_in(e) and not (isinstance(e, ast.Compare) and type(e.ops[0]) in (ast.NotEq, ast.NotIn, ast.IsNot)):
+                hits[0] += 1
+                return True
+            return None
+        asm = Assume(ov, atom)
+        # an `assert` the assumption falsifies raises
+        failing = [n.id for n in ov.cfg.nodes if n.kind == "stmt" and isinstance(n.ast, ast.Assert) and asm.truth(n.ast.test, n.id) is False]
+        live = asm.reach(removed=failing)
+        if ov.cfg.exit not in live:
+            res = True        # refused on every path
+        else:
+            # or escaped: every key returned for such an override is rewritten (quoted / prefix replaced)
+            rets = [ov.cfg.node(i) for i in live if ov.cfg.node(i).kind == "stmt" and isinstance(ov.cfg.node(i).ast, ast.Return)]
+            res = bool(rets) and all(r.ast.value is not None and any(A.call_attr(c) in ("replace", "quote", "normpath") for c in A.calls_in(ov.expand(r.ast.value, r.id)))
+                                     for r in rets)
+        return res and hits[0] > 0
+
+    ok = refused_or_escaped((prefix, stem))
     ck.ob(R, ov.key(None, "override-outside-content-namespace"), ok,
           "override keys under %r are refused / escaped" % prefix if ok else
           "a key override is used verbatim, also when it lies under %r: KeyOverrideResult(x, '%s<sha of other bytes>') puts an object under a content "
           "key that its bytes do not hash to, and a later result that does hash to it is deduplicated against the wrong bytes" % (prefix, prefix), ov.where())
+    # the same place under another spelling: './c/<sha>', 'x/../c/<sha>' and 'c//<sha>' resolve to the content key's files, so a
+    # guard that compares the first component alone is walked around (D44)
+    okn = refused_or_escaped(("..",))
+    ck.ob(R, ov.key(None, "override-normalised"), okn,
+          "override keys with '.', '..' or empty components are refused / normalised" if okn else
+          "a key override with '.' / '..' components is used verbatim: './%s<sha>' or 'x/../%s<sha>' passes a guard on the first component and "
+          "resolves to the files of a content key, so arbitrary bytes can be planted under a content hash (and '../x' leaves the store)" % (prefix, prefix), ov.where())
+    # the metadata tree: with one root for data and metadata (the default), an object under the metadata prefix is listed as a function
+    mcls = ck.repo.cls("storage_base.DataSourceMetadataSource")
+    mstem = None
+    for st in mcls.node.body:
+        if isinstance(st, (ast.Assign, ast.AnnAssign)) and st.value is not None:
+            tg = st.targets if isinstance(st, ast.Assign) else [st.target]
+            if any(isinstance(t, ast.Name) and "prefix" in t.id for t in tg):
+                ss = A.strings_in(st.value)
+                if len(ss) == 1:
+                    mstem = list(ss)[0].rstrip("/")
+    ck.need(mstem, "DataSourceMetadataSource: cannot identify the metadata prefix")
+    okm = refused_or_escaped((mstem, mstem + "/"))
+    ck.ob(R, ov.key(None, "override-outside-metadata-namespace"), okm,
+          "override keys under %r are refused / escaped" % (mstem + "/") if okm else
+          "a key override under %r is used verbatim: with data and metadata under one root (the default) the object lands in the metadata tree, "
+          "list_functions yields it as a function and fails on it" % (mstem + "/"), ov.where())
 
 
 def check_who_may_delete(ck, R4):
@@ -421,6 +512,9 @@ def _rest(ck, fa, R3, R4, R5, R6):
             if nm in ("unlink", "rmtree", "rmdir", "remove", "removedirs"):
                 fi = ck.cg.funcs[q]
                 ok = (fi.cls is not None and fi.cls.qual == FSDS and ("delete" in fi.name)) or fi.qual == "storage_filesystem.OnDiskPartition.__del__"
+                if not ok and fi.cls is not None and fi.cls.qual == FSDS:
+                    # a scratch file the method itself created under a name outside the key scheme (never a stored object)
+                    ok = _removes_own_scratch(ck, fi, n)
                 ck.ob(R4, "%s::%s" % (q, A.short(n, 50)), ok, "removal primitive inside a delete method of the data source" if ok else
                       "filesystem removal outside the data source's delete methods", A.loc(fi, n))
     for name in ("forget_call", "forget_function", "forget_everything"):
@@ -475,8 +569,15 @@ def _rest(ck, fa, R3, R4, R5, R6):
             if isinstance(n, ast.Call) and A.call_attr(n) in ("open", "write_text", "write_bytes"):
                 fi = ck.cg.funcs[q]
                 ok = q in WRITE_OPEN_SITES
-                ck.ob(R5, "%s::%s" % (q, A.short(n, 50)), ok, WRITE_OPEN_SITES.get(q, "") if ok else
-                      "new write-mode open in the storage layer at %s (not one of the three known write sites)" % q, A.loc(fi, n))
+                why = WRITE_OPEN_SITES.get(q, "")
+                if not ok and fi.cls is not None and fi.cls.qual == FSDS:
+                    # bytes staged under a scratch name and moved onto a version path that does not exist yet: no stored
+                    # object is written in place (that the scratch file cannot leak is C05.R5's obligation)
+                    ok = _staged_onto_absent_object(ck, fi, n)
+                    why = "object staged under a scratch name and moved onto a version path that is not there yet"
+                ck.ob(R5, "%s::%s" % (q, A.short(n, 50)), ok, why if ok else
+                      "new write-mode open in the storage layer at %s (not one of the known write sites, and not a scratch file that is "
+                      "moved onto a version path established to be absent): a stored object can be written in place" % q, A.loc(fi, n))
     om = FA(ck, FSDS + ".output_metadata")
     pc = om.one(om.calls("_get_path_versioned"), "_get_path_versioned call")
     okm = A.kwarg(pc, "metadata_key") is not None or len(pc.args) > 1
